@@ -64,7 +64,9 @@ pub fn install_panic_recorder() {
          "<non-string panic payload>".to_string()
       };
       let loc = info.location().map(|l| format!("{}:{}", l.file(), l.line())).unwrap_or_default();
-      if verbose {
+      // panics of simulated code are recorded quietly; a panic while no simulated execution is
+      // running is the harness' own (or the serial reference's) and must be visible in the worker log
+      if verbose || !verif_rt::active() {
          eprintln!("[panic] {} @ {}", msg, loc);
       }
       PANICS.lock().unwrap().push(format!("{} @ {}", msg, loc));
